@@ -1175,10 +1175,13 @@ class World(object):
             _, layer, gname, ci, how = op
             c = self.glyph(layer, gname)[ci]
             p = c.pointClass((17 + step, 23), segmentType="line")
-            if how == "append":
+            # keep the outline legal: a line point may only follow an on-curve point
+            pts = list(c)
+            if how == "append" and (not pts or pts[-1].segmentType is not None):
                 c.appendPoint(p)
             else:
-                c.insertPoint(0, p)
+                on = [i for i, q in enumerate(pts) if q.segmentType is not None]
+                c.insertPoint(on[0] + 1 if on else 0, p)
             ret.append(("point", p, "contour.pointClass()"))
         elif k == "decompose":
             _, layer, gname, which = op
@@ -1291,6 +1294,9 @@ def run_impl(case):
             w.stats["path." + path] = w.stats.get("path." + path, 0) + 1
             for r in expect:
                 w.stats["hit.%s.%s" % (path, r)] = w.stats.get("hit.%s.%s" % (path, r), 0) + 1
+                if op[0] in ("removeSegment", "split", "appendPoint", "reverse", "copyData", "deserializeGlyph",
+                             "deserializeContour", "reloadGlyphs", "reloadLayers", "reloadPart"):
+                    w.stats["made.%s.%s" % (op[0], r)] = w.stats.get("made.%s.%s" % (op[0], r), 0) + 1
             try:
                 if op[0] == "props":
                     outs.append(w.props(op[1]))
